@@ -62,6 +62,12 @@ RULES = {
            "position, bare and inside branches and loops",
     "cancel": "loop-bearing programs (terminating and not, empty bodies, nested, through use(), both interpreters): TLC fires the "
               "signal at every point; every implementation poll is also used as the cancellation point",
+    "errexpr": "a failing sub-expression (ill-typed operand, out-of-range / ill-typed / undefined subscript, zero step) in every "
+               "expression position (unary, list/map element, index, slice object and bounds, both operands of every operator class incl. "
+               "short-circuit, call argument), with evaluation-order probes around it: effects before happen, none after, error position",
+    "errstmt": "the same failing sub-expressions in every statement position (for init/cond/post/body, for-in iterable/body, every "
+               "if/elif condition, assignment and compound assignment right-hand sides and subscripts, call arguments), bare and in a "
+               "script reached through use()",
     "hostile": "ill-typed and extreme operands in every operator / condition / iterable / element / index / slice-bound position, "
                "object-less index expressions, attribute expressions, overflowing ranges and steps",
     "v2shared": "the operator table (literal / variable operands, unary, trees), slices, indexing, control flow and aliasing "
